@@ -66,6 +66,15 @@ LABELARITH = [
     sym('lwL', lambda l: I('lw', rd=8, rs1=8, imm=('label', l)), 'ref'),
     sym('addiOff', lambda l: I('addi', rd=8, rs1=8, imm=('offset', l)), 'ref'),
 ]
+# expressions that DECREASE in a label: their value grows when -c (or a shrinking pseudo-instruction) moves the label down
+NEGARITH = [
+    sym('liNeg', lambda l: L.li(10, ('rsub', 2051, ('label', l))), 'ref'),
+    sym('liNeg9', lambda l: L.li(10, ('rsub', 2057, ('label', l))), 'ref'),
+    sym('addiNeg', lambda l: I('addi', rd=8, rs1=8, imm=('rsub', 2051, ('label', l))), 'ref'),
+    sym('addiNeg9', lambda l: I('addi', rd=5, rs1=6, imm=('rsub', 2057, ('label', l))), 'ref'),
+    sym('lwNeg', lambda l: I('lw', rd=8, rs1=8, imm=('rsub', 130, ('label', l))), 'ref'),
+    sym('dbNeg', lambda l: L.data('db 259 - ' + l, ('<B', ('rsub', 259, ('label', l)))), 'ref'),
+]
 DATA = [
     sym('db', lambda l: L.data('db 1', b'\x01')),
     sym('dh', lambda l: L.data('dh 2', b'\x02\x00')),
@@ -229,6 +238,8 @@ def spec_class(it):
     if spec is None or isinstance(spec, int):
         return 'literal'
     t = spec[0]
+    if t == 'rsub':
+        return 'rsub-' + (spec[2][0] if not isinstance(spec[2], int) else 'literal')
     while t in ('hi', 'lo', 'add'):
         t = t + '-' + (spec[1][0] if not isinstance(spec[1], int) else 'literal')
         spec = spec[1]
